@@ -71,6 +71,11 @@ impl Phase for Mutations {
         if tight != src {
             judge(out, &toks, &tight, Want::IllFormed, "malformed");
         }
+        if r.chance(1, 4) {
+            if let Some(planned) = gen::render_with_plan(&toks, r, true) {
+                judge(out, &toks, &planned, Want::IllFormed, "malformed");
+            }
+        }
         if let Class::Ill(why) = &class {
             out.nontrivial(&src);
             out.count(&format!("ILL reason: {}", why));
@@ -108,6 +113,15 @@ pub fn phases(cfg: &Cfg) -> Vec<Box<dyn Phase>> {
             label: "A23".into(),
             alphabet: gen::alphabet23(),
             maxlen: if t { 5 } else { 4 },
+            want: Want::IllFormed,
+            rule_prefix: "malformed",
+            only_sequences: false,
+            hook_every: 0,
+        }),
+        Box::new(TokenSweep {
+            label: "all-operators+words".into(),
+            alphabet: gen::alphabet_all(),
+            maxlen: if t { 4 } else { 3 },
             want: Want::IllFormed,
             rule_prefix: "malformed",
             only_sequences: false,
